@@ -86,6 +86,7 @@ def build(values, mapping):
 
 
 def cases(tier):
+    yield {'dom': 'alias'}
     total = len(order_requests())
     for lo in range(0, total, 100):
         yield {'dom': 'order', 'lo': lo, 'hi': min(total, lo + 100)}
@@ -184,6 +185,41 @@ def run_order(res, case):
     res.outcome = 'order'
     res.sample = {'requests': ['%s-%s' % r for r in reqs[0]],
                   'x': ORDER_DATA[0][0], 'y': ORDER_DATA[0][1]}
+
+
+def run_alias(res, case):
+    """with prefix=p the statistics are also reachable as p_<stat>_<name>
+    (dashes written as underscores): same values as the dashed names"""
+    from DocumentTemplate import HTML
+    n = 0
+    dashed = '|'.join('<dtml-var %s-x>' % s for s in STATS)
+    alias = '|'.join('<dtml-var seq_%s_x>' % s.replace('-', '_')
+                     for s in STATS)
+    expr = '|'.join('<dtml-var "seq_%s_x">' % s.replace('-', '_')
+                    for s in STATS)
+    for mapping in (0, 1):
+        t = HTML('<dtml-in seq prefix=seq%s><dtml-if sequence-end>%s#%s#%s'
+                 '</dtml-if></dtml-in>' % (' mapping' if mapping else '',
+                                           dashed, alias, expr))
+        for values in ([1, 2, 3, 7], [2.5, 0.5], [4], [1, None, 3],
+                       ['a', 'c', 'b'], [0.1, 0.1, 0.1]):
+            n += 1
+            try:
+                a, b, c = t(seq=build(values, mapping)).split('#')
+            except Exception as e:
+                a, b, c = 'raised %r' % (e,), '', ''
+            if not (a == b == c):
+                sa, sb = a.split('|'), b.split('|')
+                which = [s for s, x, y in zip(STATS, sa, sb) if x != y] \
+                    if len(sa) == len(sb) == len(STATS) else ['?']
+                res.violate('prefix-alias', 'alias:%s' % (which or ['expr'])[0],
+                            {'values': values, 'mapping': mapping,
+                             'dashed': a, 'alias': b, 'alias-in-expr': c},
+                            {'dom': 'alias'})
+    res.evals = n
+    res.nt_count = n
+    res.outcome = 'alias'
+    res.sample = {'alias': 'seq_variance_n_x == variance-n-x'}
 
 
 def lists(case):
@@ -313,6 +349,9 @@ def render(values, mapping):
 
 def run(case):
     res = Res()
+    if case.get('dom') == 'alias':
+        run_alias(res, case)
+        return res
     if case.get('dom') == 'order':
         run_order(res, case)
         return res
